@@ -58,7 +58,7 @@ class Meter:
 
 
 def floors(tier):
-    n = 15000 if tier == "quick" else 1_000_000
+    n = 60000 if tier == "quick" else 5_000_000
     return {"c02.total": n, "c02.bounded": n, "c02.wellformed": n // 10, "c02.faithful": n // 20}
 
 
@@ -68,9 +68,9 @@ ALPHABET = [0x00, 0x01, 0x3F, 0x40, 0xC0, 0x0C, 0x0E, 0xFF]
 
 def plan(tier, seed):
     if tier == "quick":
-        n, per, exh = 16, 1400, 4
+        n, per, exh = 16, 6000, 4
     else:
-        n, per, exh = 64, 30000, 6
+        n, per, exh = 64, 150000, 6
     return [{"seed": seed, "shard": i, "n_shards": n, "per": per, "exh": exh, "tier": tier} for i in range(n)]
 
 
